@@ -429,6 +429,7 @@ def unpivot_clauses(ctx):
                 stmts = [st for st in stmts if st is not al[0]]
                 nr = al[0].value.id
             names['nr'] = nr
+            pvs = {id(o_): c_ for o_, c_ in PathValues(p).stmts}
             init = kept = cell = 0
             other = []
             for st in stmts:
@@ -447,9 +448,15 @@ def unpivot_clauses(ctx):
                         '%(nr)s.update(((_k, %(row)s[_k]) for _k in %(keep)s))')):
                     kept += 1
                     continue
-                if any(match_stmt(("%(nr)s[%(extra)s['name']] = " + cp) % names, st) is not None for cp in cell_pats):
+                st_v = pvs.get(id(st), st)      # with the temporaries of this path resolved (value = row.get(..); out[..] = value)
+                if any(match_stmt(("%(nr)s[%(extra)s['name']] = " + cp) % names, st_v) is not None or
+                       match_stmt(("__X[%(extra)s['name']] = " + cp) % names, st_v) is not None and
+                       pseudo(st.targets[0].value) == nr for cp in cell_pats):
                     cell += 1
                     continue
+                if isinstance(st, ast.Assign) and isinstance(st.targets[0], ast.Name) and st.targets[0].id != nr and \
+                        not any(isinstance(x, ast.Name) and x.id == nr for x in ast.walk(st.value)):
+                    continue        # a temporary that does not involve the new row
                 other.append(st)
             order_ok = True
             good = init == 1 and kept == 1 and cell == 1 and not other
